@@ -78,4 +78,26 @@ theorem reset_total (s : KeltnerChannel F) (h : WF s) :
   obtain ⟨r, e, w, p, m, _⟩ := reset_shape s h
   exact ⟨r, e, w, p, m⟩
 
+/-- `next` never panics on ANY state (no hypothesis), and afterwards the TrueRange inside the ATR
+    remembers a previous close (shape of the state only): what C18 needs, whose KeltnerChannel
+    statements carry no `WF` -/
+theorem next_some_shape (s : KeltnerChannel F) (x : F) :
+    ∃ r, s.next x = some r ∧ r.1.atr.true_range.prev_close.isSome = true := by
+  obtain ⟨fa, ha⟩ := Classical.axiomOfChoice (fun y => AverageTrueRange.next_some_shape s.atr y)
+  obtain ⟨fe, he⟩ := Classical.axiomOfChoice (fun y => ExponentialMovingAverage.next_some s.ema y)
+  unfold next
+  try simp only [gen_helper]
+  simp only [fun y => (ha y).1, fun y => he y, Option.bind_eq_bind, Option.bind_some, Option.pure_def]
+  exact ⟨_, rfl, (ha _).2⟩
+
+/-- the same on the bar path -/
+theorem nextBar_some_shape (s : KeltnerChannel F) (b : Bar F) :
+    ∃ r, s.nextBar b = some r ∧ r.1.atr.true_range.prev_close.isSome = true := by
+  obtain ⟨fa, ha⟩ := Classical.axiomOfChoice (fun y => AverageTrueRange.nextBar_some_shape s.atr y)
+  obtain ⟨fe, he⟩ := Classical.axiomOfChoice (fun y => ExponentialMovingAverage.next_some s.ema y)
+  unfold nextBar
+  try simp only [gen_helper]
+  simp only [fun y => (ha y).1, fun y => he y, Option.bind_eq_bind, Option.bind_some, Option.pure_def]
+  exact ⟨_, rfl, (ha _).2⟩
+
 end TaRs.Gen.KeltnerChannel
